@@ -271,6 +271,8 @@ pub(crate) fn split_in_extension<T>(
 where
     T: LabelType,
 {
+    // ids may be sparse: cover every id in use, not only the number of arguments
+    let n_args = usize::max(n_args, af.max_argument_id().map_or(0, |id| id + 1));
     let mut in_ext_bool = vec![false; n_args];
     current.iter().for_each(|a| {
         let id = a.id();
